@@ -5,6 +5,7 @@ import math
 from collections import Counter, defaultdict
 from . import thir as T
 from .pat import M, parse as P, unify, subterms
+from .tables import SCHEMA_FNS
 
 IDX = "<Vec<%s> as ops::Index>::index"
 
@@ -44,10 +45,14 @@ def nonempty_ctor(m, ctor):
             continue
         if "::ast::" in g.key and g.derived:
             continue
-        t = m.tb.fn_term(g)
+        if "::parser::Parser::" in g.key and g.path not in {f_.path for f_ in m.tb.roles().values()}:
+            continue        # a helper method: its body is counted where it is inlined (parser_term of the schema functions)
+        t = m.tb.parser_term(g) if "::parser::Parser::" in g.key else m.tb.fn_term(g)
         for s in subterms(t):
             if isinstance(s, tuple) and len(s) >= 2 and s[0] == "ctor" and s[1] == "Node::%s" % ctor:
                 total += 1
+            if isinstance(s, tuple) and len(s) == 2 and s[0] == "fnref" and isinstance(s[1], str) and s[1].endswith("Node::%s" % ctor):
+                total += 1      # the constructor as a function value that was not resolved to a construction site
     return total == n_guarded
 
 
@@ -330,6 +335,16 @@ def justifications(F, models):
                         e = M(("call", "<Vec<Node> as ops::Index>::index", ("R1",), ("lit", "?k", "usize")), s)
                         if e is not None and 0 <= int(e["?k"]) < n:
                             cnt += 1
+            nrm = getattr(m, "resolved_removes", 0)
+            if okshape and nrm:
+                # every `args.remove(k)` on a fixed-arity list was resolved in range (Model._resolve_removes); the calls live
+                # in the helper methods that were inlined into the function table
+                for p_ in getattr(m.tb, "_inlined_paths", set()):
+                    g_ = F.by_path.get(p_)
+                    if g_ is not None and "::parser::Parser::" in g_.key:
+                        J[p_][("call", "Vec::remove")] += 10 ** 6
+                J[pn_fn.path][("call", "Vec::remove")] += nrm
+                rec.append({"schema": "ARITY-REMOVE", "fn": pn_fn.key, "sites": nrm, "argument": "args.remove(k) on the vector of function_static_arguments(n)?: k < remaining length at every call (constant propagation)"})
             if okshape and cnt:
                 J[pn_fn.path][("call", "Index")] += cnt
                 rec.append({"schema": "ARITY", "fn": pn_fn.key, "sites": cnt, "argument": "function_static_arguments(n)? has exactly n elements (one unconditional push per iteration of `for i in 0..n`), indexed with literal k < n"})
